@@ -118,6 +118,11 @@ class FakeTransport(object):
         self._rec('limits', high)
 
     def get_write_buffer_size(self):
+        # asyncio contract: close() on a transport whose buffer is empty schedules connection_lost at once; a transport
+        # that is closing and NOT yet lost at a quiescent point therefore still holds unsent bytes (that is what the
+        # closing window of C04 is).  Otherwise the fake transmits at once.
+        if self.__dict__.get('closing') and not self.__dict__.get('gone'):
+            return max(1, sum(len(p_) for _ms, k_, p_ in self.log if k_ == 'w' and isinstance(p_, (bytes, bytearray))) % 4096)
         return 0
 
 
